@@ -1,6 +1,7 @@
 package vstub
 
 import (
+	"errors"
 	"os"
 	"path/filepath"
 	"strings"
@@ -18,20 +19,28 @@ var (
 	DiskEffects *EffectLog
 )
 
-func DiskOpen(path string) *Cache {
+func DiskOpen(path string) (*Cache, error) {
 	diskMu.Lock()
 	defer diskMu.Unlock()
 	if path == "" {
 		// in-memory leveldb: a fresh private store
-		return NewCache(DiskEffects)
+		return NewCache(DiskEffects), nil
 	}
 	c, ok := disk[path]
 	if !ok {
 		c = NewCache(DiskEffects)
 		disk[path] = c
 	}
-	return c
+	// leveldb holds a LOCK file while a directory is open: a second open of a
+	// store that was not closed fails (as the real one does)
+	if c.Locked {
+		return nil, errDiskLocked
+	}
+	c.Locked = true
+	return c, nil
 }
+
+var errDiskLocked = errors.New("leveldb: resource temporarily unavailable (directory is locked by an open store)")
 
 // DiskRemoveAll removes path and everything beneath it.
 func DiskRemoveAll(path string) error {
